@@ -54,7 +54,9 @@ Inductive pcase :=
 | PUnescape (s : string) (out : option string)            (* url.PathUnescape *)
 | PAlpineKey (u : string) (out : option string)           (* the file name fetchAlpineKeys builds for a key URL *)
 | PTempName (pattern : string) (name : option string)     (* os.CreateTemp(dir, pattern): the base name made *)
-| PExpand (cacheDir : string) (created : list string).    (* expandapk.ExpandApk(_, cacheDir): everything that appeared *)
+| PExpand (cacheDir : string) (created : list string)     (* expandapk.ExpandApk(_, cacheDir): everything that appeared *)
+| PCacheNames (cacheDir ctlhex dathex : string) (signed : bool) (present : list string).
+      (* after InstallPackages through a disk cache: the entries of the package's cache directory *)
 
 Definition all_in (alpha : str) (s : str) : bool := forallb (fun c => existsb (Ascii.eqb c) alpha) s.
 
@@ -185,6 +187,18 @@ Definition check_path (c : pcase) : list string :=
       | Some n => tag_if (negb (temp_name_matches (la pattern) (la n))) "mismatch:temp-name"
       | None => tag_if (negb (existsb is_sl (la pattern))) "mismatch:temp-name-refused"
       end
+  | PCacheNames d ctl dat signed present =>
+      let dsts := cache_package_dsts (la d) (la ctl) (la dat) in
+      let want := if signed then dsts else tl dsts in
+      let pres := map (fun x => clean (la x)) present in
+      (* every advertised name of the model is there ... *)
+      tag_if (negb (forallb (fun x => existsb (str_eqb x) pres) want)) "mismatch:cache-package-names-missing" ++
+      (* ... and everything there is one of them or ExpandApk's temporary directory *)
+      tag_if (negb (forallb (fun x => existsb (str_eqb x) dsts ||
+                                      match skipn (List.length (cc (la d))) (cc x) with
+                                      | [n] => cprefixb (cc (la d)) (cc x) && temp_name_matches (la expand_tmpdir_pattern) n
+                                      | _ => false end) pres)) "mismatch:cache-package-names-extra" ++
+      tag_if (negb (forallb (fun x => underb (la d) x) pres)) "viol:cache-package-escapes-cache-dir"
   | PExpand d created =>
       tag_if (negb (forallb (fun p => expand_path_ok (la d) (la p)) created)) "mismatch:expand-creates" ++
       tag_if (negb (forallb (fun p => underb (la d) (la p)) created)) "viol:expand-escapes-cache-dir"
